@@ -28,4 +28,4 @@ git apply $SRC/patch.diff
 fi
 if [ "$MODE" = confirm ]; then exit 0; fi
 echo "== my check against the worktree with the change applied"
-(cd /verif && GOSYM_REPO=$WT GOSYM_EVIDENCE=/tmp/seedev.$$ timeout 1800 ./bin/gosym check "$@" $PROP quick 2>&1 | cut -c1-400 | head -20; echo "check exit=${PIPESTATUS[0]}")
+(cd /verif && GOSYM_REPO=$WT GOSYM_EVIDENCE=/tmp/seedev.$$ timeout 1800 ${GOSYM_BIN:-./bin/gosym} check "$@" $PROP quick 2>&1 | cut -c1-400 | head -20; echo "check exit=${PIPESTATUS[0]}")
